@@ -8,11 +8,13 @@ From Coq Require Import List ZArith NArith QArith Qcanon Bool.
 Import ListNotations.
 Require Import UPV.Core.Expr UPV.Core.Eval UPV.Core.Interp UPV.Planning.Problem UPV.Planning.Sem.
 Require Import UPV.Walkers.Simplify UPV.Walkers.Subst UPV.Compilers.Variants.
-Require Import UPV.Compilers.LayerA_Defs UPV.Compilers.LayerA_Quant UPV.Compilers.LayerA_Inv UPV.Compilers.LayerA_Variants.
+Require Import UPV.Planning.Ground.
+Require Import UPV.Compilers.LayerA_Defs UPV.Compilers.LayerA_Quant UPV.Compilers.LayerA_Inv UPV.Compilers.LayerA_Variants
+               UPV.Compilers.LayerA_Ground.
 
 Record la_case := {
   la_kind : N;                       (* 0 quantifiers, 1 state invariants, 2 bounded types, 3 conditional effects,
-                                        4 disjunctive conditions *)
+                                        4 disjunctive conditions, 5 grounder *)
   la_orig : problem;
   la_comp : problem;                 (* what the real compiler produced *)
   la_back : list (N * N);            (* compiled action id -> original action id (real map_back_action_instance) *)
@@ -23,7 +25,11 @@ Record la_case := {
   la_tau : list (N * N);             (* variable id -> user type id *)
   la_cdnf : list (expr * list expr); (* kind 4: effect condition -> its disjuncts (real Dnf walker + simplify) *)
   la_pdnf : list (N * list (list expr)); (* kind 4: original action id -> disjuncts of its preconditions *)
-  la_goals : list expr               (* kind 4: the compiled goals when no fake goal was needed *)
+  la_goals : list expr;              (* kind 4: the compiled goals when no fake goal was needed *)
+  la_tuples : list (N * list (list value));   (* kind 5: original action id -> GrounderHelper.get_possible_parameters *)
+  la_gback : list (N * (N * list value));     (* kind 5: ground action id -> (original action id, parameters) *)
+  la_stat : list (N * list expr * expr);      (* kind 5: static fluent applied to constants -> initial value *)
+  la_empty : list N                           (* kind 5: user types without objects *)
 }.
 
 Definition la_cfg (c : la_case) : cfg :=
@@ -32,8 +38,13 @@ Definition la_cfg (c : la_case) : cfg :=
      fl_ty := fun f => lookupN f (la_fl_ty c);
      if_ty := fun _ => None;
      anc := fun t => match lookupN t (la_anc c) with Some l => l | None => [] end;
-     empty_ty := fun _ => false;
-     stat := fun _ _ => None;
+     empty_ty := fun t => memN t (la_empty c);
+     stat := fun f args =>
+               (fix look (t : list (N * list expr * expr)) : option expr :=
+                  match t with
+                  | [] => None
+                  | (g, a, v) :: t' => if (f =? g)%N && list_expr_eqb args a then Some v else look t'
+                  end) (la_stat c);
      itab := fun _ _ => None |}.
 
 Definition la_smp (c : la_case) (e : expr) : expr :=
@@ -118,6 +129,32 @@ Definition model_variants (c : la_case) (i : N) (a : action) : list action :=
   | _ => [a]
   end.
 
+(* ---- kind 5, the grounder: every enumerated tuple has exactly the model's ground action (or none), and every real
+   ground action comes from an enumerated tuple *)
+Definition values_eqb' (a b : list value) : bool := values_eqb a b.
+Definition real_ground (c : la_case) (i : N) (t : list value) : list action :=
+  flat_map (fun ia => match lookupN (fst ia) (la_gback c) with
+                      | Some (j, u) => if (j =? i)%N && values_eqb t u then [snd ia] else []
+                      | None => []
+                      end) (p_actions (la_comp c)).
+
+Definition ground_ok (c : la_case) : bool :=
+  forallb (fun ia =>
+             let ts := match lookupN (fst ia) (la_tuples c) with Some l => l | None => [] end in
+             forallb (fun t => match g_action (la_smp c) (snd ia) t, real_ground c (fst ia) t with
+                               | Some g, [r] => act_eqb g r
+                               | None, [] => true
+                               | _, _ => false
+                               end) ts)
+          (p_actions (la_orig c)) &&
+  forallb (fun ia => match lookupN (fst ia) (la_gback c) with
+                     | Some (j, u) => match lookupN j (la_tuples c) with
+                                      | Some ts => existsb (values_eqb u) ts
+                                      | None => false
+                                      end
+                     | None => false
+                     end) (p_actions (la_comp c)).
+
 Definition model_problem (c : la_case) : problem :=
   match la_kind c with
   | 0%N => quant_compile (la_smp c) (la_orig c)
@@ -133,6 +170,7 @@ Definition la_code (c : la_case) : N :=
   let R := la_comp c in
   let renaming := (3 <=? la_kind c)%N in
   let b_act :=
+    if (la_kind c =? 5)%N then ground_ok c else
     if renaming
     then forallb (fun ia => acts_as_set (model_variants c (fst ia) (snd ia)) (real_variants c (fst ia)))
                  (p_actions (la_orig c))
@@ -140,11 +178,12 @@ Definition la_code (c : la_case) : N :=
   let b_goal := match la_kind c with
                 | 3%N => seteq_e (p_goals (la_orig c)) (p_goals R)
                 | 4%N => seteq_e (la_goals c) (p_goals R)
+                | 5%N => seteq_e (p_goals (la_orig c)) (p_goals R)
                 | _ => seteq_e (p_goals M) (p_goals R)
                 end in
   let b_inv := seteq_e (p_invs M) (p_invs R) in
   let b_fl := fds_seteq (p_fluents M) (p_fluents R) in
-  let b_back := if renaming
+  let b_back := if (la_kind c =? 5)%N then true else if renaming
                 then forallb (fun ia => match lookupN (fst ia) (la_back c) with
                                         | Some j => match lookupN j (p_actions (la_orig c)) with Some _ => true | None => false end
                                         | None => false end) (p_actions R)
